@@ -47,7 +47,17 @@ import (
 
 const c10SRG = "srg1"
 const c10GateSRG = "srg0"
-const c10SRG2 = "srg2" // second redundancy group of the two-group cases (first op token G2:...)
+// second redundancy group of the two-group cases (head token G2:...); its name varies per case (9th field):
+// names that have "srg1" as a prefix, are a prefix of it, or differ in case only
+var c10SRG2 = "srg2"
+var c10SRG2Names = []string{"srg2", "srg10", "srg", "SRG1", "srg1 "}
+
+// sw_if_index of logical interface k (head token IX:<n>): indices that cross byte boundaries, are huge, or alias
+// each other modulo 2^8 / 2^16 (also across the two groups)
+var c10IdxBase, c10IdxStride uint32 = 0, 1
+var c10IdxMaps = [][2]uint32{{0, 1}, {255, 1}, {65535, 1}, {4294967200, 1}, {7, 256}, {5, 65536}, {1000000, 3}}
+
+func c10Idx(k int) uint32 { return c10IdxBase + uint32(k)*c10IdxStride }
 
 // configuration of the second group: priority, preempt, decrement, #interfaces (sw_if_index 100+k) per node
 type c10G2 struct{ prio, pre, dec, nifs [2]int }
@@ -271,7 +281,7 @@ func c10NewNode2(who string, wi int, id string, prio int, preempt bool, dec, nif
 			if _, err := fmt.Sscanf(name, "if%d", &k); err != nil {
 				return 0, err
 			}
-			return k, nil
+			return c10Idx(int(k)), nil
 		}))
 	if err != nil {
 		return nil, err
@@ -431,8 +441,25 @@ func c10RunCaseOnce(f []string) (res string) {
 	}
 	var g2 *c10G2
 	ops := f[10:]
+	c10IdxBase, c10IdxStride, c10SRG2 = 0, 1, "srg2"
+	if len(ops) > 0 && strings.HasPrefix(ops[0], "IX:") {
+		v, err := strconv.Atoi(ops[0][3:])
+		if err != nil || v < 0 || v >= len(c10IdxMaps) {
+			return "badcase"
+		}
+		c10IdxBase, c10IdxStride = c10IdxMaps[v][0], c10IdxMaps[v][1]
+		ops = ops[1:]
+	}
 	if len(ops) > 0 && strings.HasPrefix(ops[0], "G2:") {
 		p := strings.Split(ops[0][3:], ",")
+		if len(p) == 9 {
+			v, err := strconv.Atoi(p[8])
+			if err != nil || v < 0 || v >= len(c10SRG2Names) {
+				return "badcase"
+			}
+			c10SRG2 = c10SRG2Names[v]
+			p = p[:8]
+		}
 		if len(p) != 8 || twoSRG {
 			return "badcase"
 		}
@@ -514,6 +541,10 @@ func c10RunCaseOnce(f []string) (res string) {
 		n, o := nodes[w], nodes[1-w]
 		op := tok[:2]
 		only := ""
+		ghost := false
+		if op == "dg" { // heartbeat that also carries statuses of groups this node does not have
+			op, ghost = "dl", true
+		}
 		if g2 != nil {
 			switch op {
 			case "d1":
@@ -548,6 +579,14 @@ func c10RunCaseOnce(f []string) (res string) {
 			n.inbox = append(append([]c10Msg{}, n.inbox[:i]...), n.inbox[i+1:]...)
 			if only != "" {
 				msg.m = c10Only(msg.m, only)
+			}
+			if ghost {
+				g := &hapb.HeartbeatMessage{NodeId: msg.m.NodeId, TimestampNs: msg.m.TimestampNs, Sequence: msg.m.Sequence}
+				g.SrgStatuses = append(g.SrgStatuses, &hapb.SRGStatus{SrgName: "sr", State: "ACTIVE", Priority: 4000000000})
+				g.SrgStatuses = append(g.SrgStatuses, msg.m.SrgStatuses...)
+				g.SrgStatuses = append(g.SrgStatuses, &hapb.SRGStatus{SrgName: c10SRG + "1", State: "STANDBY", Priority: 0},
+					&hapb.SRGStatus{SrgName: "", State: "BOGUS", Priority: 1})
+				msg.m = g
 			}
 			if msg.req {
 				ss := &c10ServerStream{in: msg.m}
@@ -605,7 +644,7 @@ func c10RunCaseOnce(f []string) (res string) {
 			n.hb.checkPeerTimeout()
 		case "dn", "up", "de":
 			k := c10Arg(tok)
-			ev := events.InterfaceStateEvent{SwIfIndex: uint32(k), Name: fmt.Sprintf("if%d", k), AdminUp: true}
+			ev := events.InterfaceStateEvent{SwIfIndex: c10Idx(k), Name: fmt.Sprintf("if%d", k), AdminUp: k%2 == 0}
 			switch op {
 			case "up":
 				ev.LinkUp = true
@@ -735,8 +774,8 @@ func c10RunCaseOnce(f []string) (res string) {
 			// reader sees the state between the call's first and any second critical section and reports
 			// (down count, effective priority) -- they must already agree.
 			k := c10Arg(tok)
-			ev := events.InterfaceStateEvent{SwIfIndex: uint32(k), Name: fmt.Sprintf("if%d", k), AdminUp: true, LinkUp: op == "xh"}
-			name, tracked := n.m.ifToSRG[uint32(k)]
+			ev := events.InterfaceStateEvent{SwIfIndex: c10Idx(k), Name: fmt.Sprintf("if%d", k), AdminUp: true, LinkUp: op == "xh"}
+			name, tracked := n.m.ifToSRG[c10Idx(k)]
 			if !tracked {
 				n.m.handleInterfaceEvent(events.Event{Data: ev})
 				break
@@ -761,8 +800,8 @@ func c10RunCaseOnce(f []string) (res string) {
 			// enters sm.AdjustPriority (pending writer => TryRLock fails: definite handshake); at that moment m.mu
 			// must still be held by the call (AdjustPriority inside the ifDownCount critical section)
 			k := c10Arg(tok)
-			ev := events.InterfaceStateEvent{SwIfIndex: uint32(k), Name: fmt.Sprintf("if%d", k), AdminUp: true, LinkUp: op == "xu"}
-			name, tracked := n.m.ifToSRG[uint32(k)]
+			ev := events.InterfaceStateEvent{SwIfIndex: c10Idx(k), Name: fmt.Sprintf("if%d", k), AdminUp: true, LinkUp: op == "xu"}
+			name, tracked := n.m.ifToSRG[c10Idx(k)]
 			if !tracked {
 				n.m.handleInterfaceEvent(events.Event{Data: ev})
 				break
